@@ -4,9 +4,11 @@ package main
 import (
 	"errors"
 	"fmt"
+	"io"
 	"strings"
 
 	"github.com/moorara/algo/lexer"
+	aparser "github.com/moorara/algo/parser"
 	"github.com/moorara/algo/parser/lr"
 
 	"github.com/gardenbed/emerge/internal/ebnf/parser"
@@ -72,7 +74,7 @@ func posOf(p *lexer.Position) posT {
 }
 
 // runParse records the real event stream; failAt > 0 makes the failAt-th callback return the sentinel.
-func runParse(text string, failAt int) (events []string, err error, after int, pan any) {
+func runParse(text string, failAt int, failErr error) (events []string, err error, after int, pan any) {
 	defer func() {
 		if p := recover(); p != nil {
 			pan = p
@@ -91,7 +93,7 @@ func runParse(text string, failAt int) (events []string, err error, after int, p
 		}
 		if n == failAt {
 			failed = true
-			return sentinel
+			return failErr
 		}
 		return nil
 	}
@@ -105,7 +107,7 @@ func runParse(text string, failAt int) (events []string, err error, after int, p
 	return
 }
 
-func runEval(text string, failAt int) (evals []string, rootVal string, err error, after int, pan any) {
+func runEval(text string, failAt int, failErr error) (evals []string, rootVal string, err error, after int, pan any) {
 	defer func() {
 		if p := recover(); p != nil {
 			pan = p
@@ -141,7 +143,7 @@ func runEval(text string, failAt int) (evals []string, rootVal string, err error
 		evals = append(evals, fmt.Sprintf("%d(%s)", i, strings.Join(args, ", ")))
 		if n == failAt {
 			failed = true
-			return nil, sentinel
+			return nil, failErr
 		}
 		return n, nil
 	})
@@ -181,7 +183,7 @@ func checkText(r *ev.Run, text, family string, faults bool) {
 	r.Add("specs", 1)
 	r.Add("specs_"+family, 1)
 	r.Distinct(text)
-	events, err, _, pan := runParse(text, 0)
+	events, err, _, pan := runParse(text, 0, nil)
 	if pan != nil {
 		r.Add("panics_left_to_C14", 1)
 		return
@@ -194,7 +196,7 @@ func checkText(r *ev.Run, text, family string, faults bool) {
 	if d := diff(x.events, events); d != "" {
 		r.Report("", fmt.Sprintf("Parser.Parse callback sequence differs from the reverse rightmost derivation %s\n%s", d, text), in)
 	}
-	evals, rootVal, err, _, pan := runEval(text, 0)
+	evals, rootVal, err, _, pan := runEval(text, 0, nil)
 	r.Add("executions", 1)
 	if pan != nil {
 		r.Add("panics_left_to_C14", 1)
@@ -216,38 +218,54 @@ func checkText(r *ev.Run, text, family string, faults bool) {
 		return
 	}
 	// fault dimension: every choice of the failing callback
-	for k := 1; k <= len(x.events); k++ {
-		ev2, err, after, pan := runParse(text, k)
-		r.Add("executions", 1)
-		r.Add("fault_executions", 1)
-		if pan != nil {
-			continue
+	for _, id := range identities {
+		for k := 1; k <= len(x.events); k++ {
+			ev2, err, after, pan := runParse(text, k, id.err)
+			r.Add("executions", 1)
+			r.Add("fault_executions", 1)
+			if pan != nil {
+				continue
+			}
+			rep := map[string]any{"Text": text, "FailAt": k}
+			switch {
+			case err == nil:
+				r.Report("", fmt.Sprintf("Parser.Parse succeeds although callback %d of %d returned an error (%s)\n%s", k, len(x.events), id.name, text), rep)
+			case !errors.Is(err, id.err):
+				r.Report("", fmt.Sprintf("Parser.Parse returns %q, not the error returned by callback %d (%s)\n%s", err, k, id.name, text), rep)
+			case after > 0 || len(ev2) != k:
+				r.Report("", fmt.Sprintf("Parser.Parse invoked %d callbacks after callback %d failed with %s (events %d)\n%s", after, k, id.name, len(ev2), text), rep)
+			}
 		}
-		switch {
-		case err == nil:
-			r.Report("", fmt.Sprintf("Parser.Parse succeeds although callback %d of %d returned an error\n%s", k, len(x.events), text), map[string]any{"Text": text, "FailAt": k})
-		case !errors.Is(err, sentinel):
-			r.Report("", fmt.Sprintf("Parser.Parse returns %q, not the error returned by callback %d\n%s", err, k, text), map[string]any{"Text": text, "FailAt": k})
-		case after > 0 || len(ev2) != k:
-			r.Report("", fmt.Sprintf("Parser.Parse invoked %d callbacks after callback %d failed (events %d)\n%s", after, k, len(ev2), text), map[string]any{"Text": text, "FailAt": k})
+		for k := 1; k <= len(x.evals); k++ {
+			ev2, _, err, after, pan := runEval(text, k, id.err)
+			r.Add("executions", 1)
+			r.Add("fault_executions", 1)
+			if pan != nil {
+				continue
+			}
+			rep := map[string]any{"Text": text, "FailAt": k}
+			switch {
+			case err == nil:
+				r.Report("", fmt.Sprintf("ParseAndEvaluate succeeds although evaluation %d of %d returned an error (%s)\n%s", k, len(x.evals), id.name, text), rep)
+			case !errors.Is(err, id.err):
+				r.Report("", fmt.Sprintf("ParseAndEvaluate returns %q, not the error returned by evaluation %d (%s)\n%s", err, k, id.name, text), rep)
+			case after > 0 || len(ev2) != k:
+				r.Report("", fmt.Sprintf("ParseAndEvaluate invoked %d evaluations after evaluation %d failed with %s\n%s", after, k, id.name, text), rep)
+			}
 		}
 	}
-	for k := 1; k <= len(x.evals); k++ {
-		ev2, _, err, after, pan := runEval(text, k)
-		r.Add("executions", 1)
-		r.Add("fault_executions", 1)
-		if pan != nil {
-			continue
-		}
-		switch {
-		case err == nil:
-			r.Report("", fmt.Sprintf("ParseAndEvaluate succeeds although evaluation %d of %d returned an error\n%s", k, len(x.evals), text), map[string]any{"Text": text, "FailAt": k})
-		case !errors.Is(err, sentinel):
-			r.Report("", fmt.Sprintf("ParseAndEvaluate returns %q, not the error returned by evaluation %d\n%s", err, k, text), map[string]any{"Text": text, "FailAt": k})
-		case after > 0 || len(ev2) != k:
-			r.Report("", fmt.Sprintf("ParseAndEvaluate invoked %d evaluations after evaluation %d failed\n%s", after, k, text), map[string]any{"Text": text, "FailAt": k})
-		}
-	}
+}
+
+// identities are the error values a failing callback returns: the property speaks of any error, and the parser handles
+// some errors of its own specially (end of input from the scanner, its own ParseError).
+var identities = []struct {
+	name string
+	err  error
+}{
+	{"a plain error", sentinel},
+	{"io.EOF itself", io.EOF},
+	{"an error wrapping io.EOF", fmt.Errorf("callback: %w", io.EOF)},
+	{"a *parser.ParseError", &aparser.ParseError{Description: "callback failure of the harness"}},
 }
 
 func main() {
@@ -261,7 +279,7 @@ func main() {
 		r.Finish()
 	}
 	if r.Fork(16) {
-		r.Set("rule", "the specification space shared with C11 (every right-hand side up to the node bound, every declaration sequence up to the length bound with semicolon variants, bracket nestings, empty specifications), each in canonical and in one-token-per-line layout; per specification one fault-free execution per entry point plus one execution per callback index with that callback failing; non-trivial = any specification; distinct by text")
+		r.Set("rule", "the specification space shared with C11 (every right-hand side up to the node bound, every declaration sequence up to the length bound with semicolon variants, bracket nestings, empty specifications), each in canonical and in one-token-per-line layout; per specification one fault-free execution per entry point plus one execution per callback index and per error identity (a plain error, io.EOF, an error wrapping io.EOF, a *parser.ParseError) with that callback failing; non-trivial = any specification; distinct by text")
 		r.Set("evaluations", r.Get("executions"))
 		r.Finish()
 	}
